@@ -79,6 +79,9 @@ pub enum E {
     Index(Box<E>, Box<E>, Style),
     /// none() with its static type pinned: cast<Optional<T>>(none())
     NoneOf(T),
+    /// user overloads of `get` (index sugar) and `neg` (unary minus) for a struct operand
+    UserIndex(Box<E>, Box<E>, Style),
+    UserNeg(Box<E>, Style),
 }
 
 #[derive(Clone, Debug)]
@@ -219,6 +222,8 @@ impl<'a> Printer<'a> {
                     Printed { s: format!("{} {sym} {}", wrap(a, false), wrap(b, true)), level, op: sym }
                 }
             },
+            E::UserNeg(a, style) => return self.expr(&E::Un("neg", a.clone(), *style)),
+            E::UserIndex(a, i, style) => return self.expr(&E::Index(a.clone(), i.clone(), *style)),
             E::Un(name, a, style) => match style {
                 Style::Call => Self::atom(format!("{name}({})", self.expr(a).s)),
                 Style::Method => Self::atom(format!("{}.{name}()", self.postfix_operand(a))),
@@ -570,6 +575,8 @@ impl Machine {
             },
             E::Lambda(ps, body) => V::Fn(self.closure(ps, body, env, prog)),
             E::NoneOf(_) => V::Opt(None),
+            E::UserIndex(a, i, _) => self.named("get", &[(**a).clone(), (**i).clone()], env, prog, true),
+            E::UserNeg(a, _) => self.named("neg", &[(**a).clone()], env, prog, true),
         }
     }
 
@@ -789,6 +796,8 @@ pub struct Gen<'a, 'b> {
     display_id: i64,
     /// struct indices that have user operator overloads: (struct, op name)
     overloads: Vec<(usize, &'static str)>,
+    /// struct with user `get` / `neg` overloads
+    index_overload: Option<usize>,
     /// statistics for the non-triviality rule
     pub n_ops_by_level: [u32; 7],
     pub n_short_circuit_effects: u32,
@@ -800,7 +809,7 @@ const WORDS: &[&str] = &["a", "bc", "", "xyz", "q"];
 
 impl<'a, 'b> Gen<'a, 'b> {
     pub fn new(t: &'a mut Tape<'b>) -> Self {
-        Gen { t, prog: Prog::default(), prefix: String::new(), counter: 0, display_id: 0, overloads: vec![], n_ops_by_level: [0; 7], n_short_circuit_effects: 0, n_displays: 0, n_sugar: 0 }
+        Gen { t, prog: Prog::default(), prefix: String::new(), counter: 0, display_id: 0, overloads: vec![], index_overload: None, n_ops_by_level: [0; 7], n_short_circuit_effects: 0, n_displays: 0, n_sugar: 0 }
     }
 
     fn fresh(&mut self, p: &str) -> String {
@@ -1104,6 +1113,21 @@ impl<'a, 'b> Gen<'a, 'b> {
                         let e = self.literal(&T::Int, sc);
                         self.maybe_display(e, &T::Int, 2)
                     }
+                    _ if self.index_overload.is_some() && self.t.bool() => {
+                        // s[i] and (-s)[i] through the user's get / neg
+                        let s = self.index_overload.unwrap();
+                        let x = self.struct_operand(s, sc);
+                        let x = if self.t.below(3) == 0 {
+                            let st = self.style();
+                            E::UserNeg(Box::new(x), st)
+                        } else {
+                            x
+                        };
+                        let i = self.expr(&T::Int, sc, d.min(1));
+                        self.n_sugar += 1;
+                        let style = self.style();
+                        E::UserIndex(Box::new(x), Box::new(i), style)
+                    }
                     _ => {
                         // struct operator overload result projected to int
                         let ov: Vec<(usize, &'static str)> = self.overloads.clone();
@@ -1359,6 +1383,45 @@ impl<'a, 'b> Gen<'a, 'b> {
                 }));
                 self.overloads.push((s, op));
             }
+        }
+        // user overloads of get (index sugar) and neg (unary minus) for a struct
+        if !self.prog.structs.is_empty() && self.t.below(3) == 0 {
+            let s = self.t.below(self.prog.structs.len());
+            let fs = self.prog.structs[s].1.clone();
+            let first_int = fs.iter().position(|f| *f == T::Int);
+            let base = match first_int {
+                Some(i) => E::Field(Box::new(E::Var("oa".into())), i),
+                None => E::Int(BigInt::from(17)),
+            };
+            let tell = E::Call("display".into(), vec![E::Str("user get".into())], false);
+            decls.push(Decl::Fn(FnDecl {
+                name: "get".into(),
+                params: vec![("oa".into(), T::Struct(s), None), ("oi".into(), T::Int, None)],
+                ret: T::Int,
+                body: Body {
+                    decls: vec![Decl::Let("ot".into(), tell)],
+                    ret: E::Bin("add", Box::new(E::Bin("mul", Box::new(base), Box::new(E::Int(BigInt::from(10))), Style::Operator)), Box::new(E::Var("oi".into())), Style::Operator),
+                },
+            }));
+            let tell = E::Call("display".into(), vec![E::Str("user neg".into())], false);
+            let fields: Vec<E> = fs
+                .iter()
+                .enumerate()
+                .map(|(i, t)| {
+                    let fa = E::Field(Box::new(E::Var("oa".into())), i);
+                    match t {
+                        T::Int => E::Bin("sub", Box::new(E::Int(BigInt::from(1000))), Box::new(fa), Style::Operator),
+                        _ => fa,
+                    }
+                })
+                .collect();
+            decls.push(Decl::Fn(FnDecl {
+                name: "neg".into(),
+                params: vec![("oa".into(), T::Struct(s), None)],
+                ret: T::Struct(s),
+                body: Body { decls: vec![Decl::Let("ot".into(), tell)], ret: E::New(s, fields) },
+            }));
+            self.index_overload = Some(s);
         }
         let n = 3 + self.t.below(max_decls.saturating_sub(3).max(1));
         for _ in 0..n {
